@@ -974,7 +974,19 @@ namespace plan
             auto pdef = lab.makePdef(start, gx, gy, thr);
             ob::PlannerPtr planner = lab.makePlanner(rs.planner);
             planner->setProblemDefinition(pdef);
-            planner->setup();
+            // one run in five: the planner is set up while the space information still carries another propagation
+            // step size (and duration range); the final values are set afterwards, before solve() - a planner must
+            // describe its motions with the step size the propagator was actually run with
+            const bool lateStep = rs.seed % 5 == 1;
+            if (lateStep)
+            {
+                lab.si->setPropagationStepSize(lab.stepSize * 2.5);
+                planner->setup();
+                lab.si->setPropagationStepSize(lab.stepSize);
+            }
+            else
+                planner->setup();
+            base["lateStep"] = lateStep;
 
             const int nsolves = (rs.budget >= 100 && rs.budget <= 6000 && rs.seed % 2 == 0) ? 3 : 1;
             std::set<const ob::Path *> known;
